@@ -63,6 +63,8 @@ func replay(kind string, input json.RawMessage) (bool, string) {
 		return e2.ReplaySchema(input)
 	case "numshapes":
 		return e2.ReplayNum(input)
+	case "casetwins":
+		return e2.ReplayCaseTwins(input)
 	}
 	var in util.CellInput
 	if err := json.Unmarshal(input, &in); err != nil {
@@ -408,5 +410,7 @@ func run(r *chk.Run) {
 	e2.RunSchemaChange(r)
 	// every numeric cell shape in rows events of 1..3 rows through the streamer
 	e2.RunNumericShapes(r)
+	// signedness is looked up under the table's own name (names differing in case only)
+	e2.RunCaseTwins(r)
 	r.SetExhaustive(true)
 }
